@@ -74,4 +74,10 @@ def codecSrc_err : List (String × String) := [
   ("wrapError", "959990f6adaa8f40")
 ]
 
+def codecSrc_tls : List (String × String) := [
+  ("DefaultClientTLSConfig", "dfcfc3da44f57e77"),
+  ("DefaultServerTLSConfig", "7b4b208841778f5c"),
+  ("declarations of tls.go", "e3b0c44298fc1c14")
+]
+
 end Kmip.ExpectCodec
